@@ -35,16 +35,20 @@ RECURSIVE TrimEnd(_)
 TrimEnd(cs) == IF cs # <<>> /\ IsWS(cs[Len(cs)]) THEN TrimEnd(SubSeq(cs, 1, Len(cs) - 1)) ELSE cs
 Trim(cs) == TrimEnd(TrimStart(cs))
 
-\* modelled alphabet for case mapping: ASCII, e-acute (233/201), sharp s (223 -> "SS"),
-\* plus caseless code points (digits, punctuation, spaces, U+200B, U+4E2D, U+1F600)
+\* modelled alphabet for case mapping: Basic Latin and Latin-1 Supplement completely (U+0000..U+00FF: sharp s
+\* 223 -> "SS", y-diaeresis 255 -> U+0178, micro sign 181 -> U+039C, the multiplication / division signs 215 / 247
+\* and the ordinal indicators 170 / 186 caseless), plus caseless code points elsewhere (spaces, U+200B, U+4E2D,
+\* U+1F600).  Unicode's default case conversion, which is what the implementation's standard library applies.
 UpperCP(c) == IF c >= 97 /\ c <= 122 THEN <<c - 32>>
-              ELSE IF c = 233 THEN <<201>> ELSE IF c = 223 THEN <<83, 83>> ELSE <<c>>
-LowerCP(c) == IF c >= 65 /\ c <= 90 THEN <<c + 32>> ELSE IF c = 201 THEN <<233>> ELSE <<c>>
+              ELSE IF c >= 224 /\ c <= 254 /\ c # 247 THEN <<c - 32>>
+              ELSE IF c = 223 THEN <<83, 83>> ELSE IF c = 255 THEN <<376>> ELSE IF c = 181 THEN <<924>> ELSE <<c>>
+LowerCP(c) == IF c >= 65 /\ c <= 90 THEN <<c + 32>>
+              ELSE IF c >= 192 /\ c <= 222 /\ c # 215 THEN <<c + 32>> ELSE <<c>>
 RECURSIVE FlatMap(_, _)
 FlatMap(Op(_), cs) == IF cs = <<>> THEN <<>> ELSE Op(cs[1]) \o FlatMap(Op, Tail(cs))
 Upper(cs) == FlatMap(UpperCP, cs)
 Lower(cs) == FlatMap(LowerCP, cs)
-CaseModelled(c) == c < 128 \/ c \in {160, 201, 223, 233, 8203, 12288, 20013, 128512}
+CaseModelled(c) == c < 256 \/ c \in {8203, 12288, 20013, 128512}
 
 IsSub(needle, hay) ==
   \E i \in 0..(Len(hay) - Len(needle)) : SubSeq(hay, i + 1, i + Len(needle)) = needle
